@@ -434,7 +434,7 @@ pub fn run(ctx: &Ctx) -> ! {
     let mut rep = Report::new(
         ctx,
         "exploration",
-        "the real ipputil binary (built from /repo's working tree) against scripted loopback printers. (A) every list of 0..2 (3) options from {a=true, a=false, n=0, n=-1, n=2147483647, n=2147483648, x=1.5, k=v=w, e=, t=True, page-ranges=1-2,5-6, n=1,2} (duplicate keys included) x -j {absent, job, 'jöb name'} x -u {absent, u}; (B) content {0 B, 1 B, %PDF + every byte value, 8191/8192/8193 B, 1 MiB+1 (8 MiB+1)} x {-f file, stdin} x -H {none, X-A=b}; (C) printer scripts: Get-Printer-Attributes answered {idle/none, processing/informational, stopped, idle + each of the 10 blocking reasons as scalar and inside a set, IPP 0x0503 / 0x0400 / 0x0500, HTTP 500} with the state check on, and Print-Job answered {0x0000, 0x0001, 0x040a, 0x0400, 0x0500, 0x0507, HTTP 403, connection cut} with the check on (ready printer) and off. Oracle: request sequence seen by the peer (state query first unless -n; nothing submitted to a stopped / blocked / failing printer; exactly one Print-Job with document octets = input, job-name / requesting-user-name as name, options typed by their text, last wins per key, custom header present) and exit status 0 <=> every exchange succeeded with a successful IPP status. distinct = command line x printer script",
+        "the real ipputil binary (built from /repo's working tree) against scripted loopback printers. (A) every list of 0..2 (3) options from {a=true, a=false, n=0, n=-1, n=2147483647, n=2147483648, x=1.5, k=v=w, e=, t=True, page-ranges=1-2,5-6, n=1,2} (duplicate keys included), plus 24 typing witnesses used alone and next to one other option (zero-padded and negative decimals up to 20 digits, the 32-bit limits and their neighbours, -0, 0x10, 1e3, '5 ', non-ASCII digits, 1_000, TRUE, yes, 'true ', 1, 0; the expected type comes from a decimal rule written without the standard integer parser) x -j {absent, job, 'jöb name'} x -u {absent, u}; (B) content {0 B, 1 B, %PDF + every byte value, 8191/8192/8193 B, 1 MiB+1 (8 MiB+1)} x {-f file, stdin} x -H {none, X-A=b}; (C) printer scripts: Get-Printer-Attributes answered {idle/none, processing/informational, stopped, idle + each of the 10 blocking reasons as scalar and inside a set, IPP 0x0503 / 0x0400 / 0x0500, HTTP 500} with the state check on, and Print-Job answered {0x0000, 0x0001, 0x040a, 0x0400, 0x0500, 0x0507, HTTP 403, connection cut} with the check on (ready printer) and off. Oracle: request sequence seen by the peer (state query first unless -n; nothing submitted to a stopped / blocked / failing printer; exactly one Print-Job with document octets = input, job-name / requesting-user-name as name, options typed by their text, last wins per key, custom header present) and exit status 0 <=> every exchange succeeded with a successful IPP status. distinct = command line x printer script",
     );
     let bin = ctx.verif_dir.join("target/util/release/ipputil");
     if !bin.exists() {
